@@ -454,14 +454,12 @@ func parseStops(csv *csv.File, inheritWheelchairBoarding bool) []Stop {
 
 	var stops []Stop
 	stopIdToIndex := map[string]int{}
-	stopIdToParent := map[string]string{}
+	// parentIDs[i] is the parent_station value of the row that produced stops[i].
+	var parentIDs []string
 	for csv.NextRow() {
 		stopID := idColumn.Read()
-		hasParentStop := false
-		if parentStopId := parentStationColumn.Read(); parentStopId != "" {
-			stopIdToParent[stopID] = parentStopId
-			hasParentStop = true
-		}
+		parentStopId := parentStationColumn.Read()
+		hasParentStop := parentStopId != ""
 		stop := Stop{
 			Id:                 stopID,
 			Code:               codeColumn.Read(),
@@ -482,13 +480,29 @@ func parseStops(csv *csv.File, inheritWheelchairBoarding bool) []Stop {
 		}
 		stopIdToIndex[stop.Id] = len(stops)
 		stops = append(stops, stop)
+		parentIDs = append(parentIDs, parentStopId)
 	}
-	for stopId, parentStopId := range stopIdToParent {
+	for i, parentStopId := range parentIDs {
+		if parentStopId == "" {
+			continue
+		}
 		parentStopIndex, ok := stopIdToIndex[parentStopId]
 		if !ok {
 			continue
 		}
-		stops[stopIdToIndex[stopId]].Parent = &stops[parentStopIndex]
+		// Ignore a parent_station value that would make the stop its own ancestor.
+		createsCycle := false
+		for ancestor := &stops[parentStopIndex]; ancestor != nil; ancestor = ancestor.Parent {
+			if ancestor == &stops[i] {
+				createsCycle = true
+				break
+			}
+		}
+		if createsCycle {
+			log.Printf("Ignoring parent station %s of stop %s: it would create a cycle", parentStopId, stops[i].Id)
+			continue
+		}
+		stops[i].Parent = &stops[parentStopIndex]
 	}
 
 	// Inherit wheelchair boarding from parent stops if specified.
